@@ -177,6 +177,23 @@ def run_case(case: dict) -> Result:
     nontrivial = False
     last_via: dict[int, str] = {}
     for op in case['ops']:
+        if op.get('f') == 'claim':
+            # a comment released or claimed moves in or out of a raw list: every view of every model must follow
+            try:
+                OPS.resolve(root, op).run()
+            except OPS.NotApplicable:
+                continue
+            except Exception:  # noqa: BLE001
+                continue  # nothing to claim / release there: a refusal, C19's
+            classes.add('claim:' + op['op'])
+            hit = None
+            for ms in OPS.index_models(root).values():
+                for m_ in ms:
+                    hit = hit or check_views(m_, f'{op}')
+            if hit:
+                res.bad(hit[0] + ':claim:' + op['op'], hit[1])
+                break
+            continue
         if op.get('f') not in ('list', 'view', 'map'):
             continue
         try:
@@ -206,6 +223,9 @@ def run_case(case: dict) -> Result:
                 classes.add('map:duplicate-keys')
                 nontrivial = True
         last_via[id(P)] = via
+        if op.get('op') == 'assign' and op.get('src', {}).get('mi') != op.get('mi'):
+            classes.add('assign-from-another-model')
+            nontrivial = True
         what = f'{op}'
         raised: Optional[BaseException] = None
         try:
@@ -273,6 +293,16 @@ def run_case(case: dict) -> Result:
         bad = check_views(P, what)
         if bad:
             res.bad(bad[0] + ':' + a.family + ':' + a.shape, bad[1])
+            break
+        # the views of every OTHER model still show their own lists (a copied list that keeps notifying the views of the list it was copied
+        # from - round 8, seed C03-h - shows up on the donor, not on the model operated on)
+        other_bad = None
+        for ms in OPS.index_models(root).values():
+            for m_ in ms:
+                if m_ is not P and other_bad is None:
+                    other_bad = check_views(m_, what + ' (on another model)')
+        if other_bad:
+            res.bad('other-model:' + other_bad[0] + ':' + a.family + ':' + a.shape, other_bad[1])
             break
     res.classes = sorted(classes)
     res.nontrivial = nontrivial
@@ -374,6 +404,7 @@ def _build(tier: str):
             except Exception:  # noqa: BLE001
                 pass
         focus = None
+        sticky = None
         for _ in range(g.n(1, nmax)):
             cands = OPS.candidates(root, {'list', 'clist', 'fview', 'rawmeta', 'meta', 'sview', 'cview'})
             if not cands:
@@ -383,12 +414,41 @@ def _build(tier: str):
                 focus = id(m0)
             fc = [x for x in cands if id(x[0]) == focus] or cands
             m, p, cname, mi = fc[g.n(0, len(fc) - 1)]
+            if sticky and sticky[1] > 0:
+                # the list that has just been replaced by a copy of another model's list is edited next: the copy must have cut every tie
+                # to the list it was copied from (round 8, seed C03-h)
+                hit = [x for x in cands if x[2] == sticky[0][0] and x[3] == sticky[0][1] and x[1].name == sticky[0][2]]
+                sticky = (sticky[0], sticky[1] - 1)
+                if hit:
+                    m, p, cname, mi = hit[0]
+            elif g.p(0.12):
+                # comments handed over between a list and its neighbours: releasing / claiming them changes the raw list while the views exist
+                cl = [x for x in fc if x[1].kind == 'clist']
+                if cl and g.p(0.7):
+                    m, p, cname, mi = cl[g.n(0, len(cl) - 1)]
+                    case['ops'].append({'f': 'claim', 'cls': cname, 'mi': mi, 'prop': p.name,
+                                        'op': g.pick(['unclaim_interleaving_comments', 'unclaim_interleaving_comments', 'claim_interleaving_comments'])})
+                else:
+                    case['ops'].append({'f': 'claim', 'cls': cname, 'mi': mi,
+                                        'op': g.pick(['auto', 'unclaim_leading_comment', 'unclaim_trailing_comment', 'claim_leading_comment', 'claim_trailing_comment'])})
+                try:
+                    OPS.resolve(root, case['ops'][-1]).run()
+                except Exception:  # noqa: BLE001
+                    case['ops'].pop()
+                continue
+            same = OPS.index_models(root).get(cname, [])
             try:
-                op = OPS.gen_for(g, root, m, p, cname, mi)
+                if p.kind in ('list', 'clist') and len(same) >= 2 and not (sticky and sticky[1] > 0) and g.p(0.1):
+                    # whole-field assignment from ANOTHER model of the class (whose views exist when the case is primed)
+                    op = {'f': 'list', 'cls': cname, 'mi': mi, 'prop': p.name, 'op': 'assign', 'src': {'cls': cname, 'mi': (mi + g.n(1, len(same) - 1)) % len(same)}}
+                else:
+                    op = OPS.gen_for(g, root, m, p, cname, mi)
             except Exception:  # noqa: BLE001
                 break
             if op is None or op.get('op') == 'reverse' and op['f'] == 'list':
                 continue
+            if op.get('op') == 'assign':
+                sticky = ((cname, mi, p.name), 2)
             case['ops'].append(op)
             try:
                 OPS.resolve(root, op).run()
@@ -457,13 +517,37 @@ def _enum_meta(maxn: int):
         yield {'dirs': [[['X', text]]], 'prime': prime_, 'ops': [{'f': 'map', 'cls': 'Close', 'mi': 0, 'prop': 'meta', 'op': 'update', 'key': 'x', 'sel': 0}]}
 
 
+def _enum_assign():
+    """Whole-field assignment from another model, then every small edit of the assigned list and of the donor's list, primed and lazy: a copied
+    list must have cut every tie to the list it was copied from (update handlers, index tables)."""
+    hosts = [('Note', 'raw_tags_links', '2000-01-01 note Assets:A "x" #a ^l #b\n2000-01-02 note Assets:B "y" ^m #c ^n\n',
+              [{'k': 'LINK', 't': '^z'}], [{'k': 'TAG', 't': '#z'}]),
+             ('Transaction', 'raw_tags_links', '2000-01-01 * "x" #a ^l #b\n  Assets:A  1 USD\n2000-01-02 * "y" ^m #c\n  Assets:B  2 USD\n',
+              [{'k': 'LINK', 't': '^z'}], [{'k': 'TAG', 't': '#z'}]),
+             ('Open', 'raw_currencies', '2000-01-01 open Assets:A USD, EUR\n2000-01-02 open Assets:B GBP\n',
+              [{'k': 'CURRENCY', 't': 'CAD'}], [{'k': 'CURRENCY', 't': 'JPY'}]),
+             ('Custom', 'raw_values', '2000-01-01 custom "t" "a" Assets:A 5\n2000-01-02 custom "u" TRUE "b"\n',
+              [{'k': 'ESCAPED_STRING', 't': '"z"'}], [{'k': 'ACCOUNT', 't': 'Assets:Z'}])]
+    for (cls, prop, text, d1, d2), dst, prime_ in itertools.product(hosts, (0, 1), (True, False)):
+        assign = {'f': 'list', 'cls': cls, 'mi': dst, 'prop': prop, 'op': 'assign', 'src': {'cls': cls, 'mi': 1 - dst}}
+        edits = [{'op': 'insert', 'i': 0, 'donors': d1}, {'op': 'insert', 'i': 1, 'donors': d2}, {'op': 'append', 'donors': d1}, {'op': 'pop', 'i': 0},
+                 {'op': 'pop', 'i': -1}, {'op': 'delslice', 'i': 0, 'j': 2, 'k': None}, {'op': 'clear'}, {'op': 'extend', 'donors': d1 + d2}]
+        for e1, e2, side in itertools.product(edits, edits, (0, 1)):
+            # first edit on the assigned list, second on the assigned list or on the donor's own list
+            yield {'dirs': [[['X', text]]], 'prime': prime_,
+                   'ops': [assign, {'f': 'list', 'cls': cls, 'mi': dst, 'prop': prop, **e1},
+                           {'f': 'list', 'cls': cls, 'mi': dst if side == 0 else 1 - dst, 'prop': prop, **e2}]}
+
+
 def jobs(tier: str) -> list[Job]:
     if tier == 'quick':
         return [Job('histories', 'hyp', lambda: _build(tier), 3000),
                 Job('enum-slices', 'enum', lambda: _enum(3, 3), exhaustive=True),
                 Job('enum-meta', 'enum', lambda: _enum_meta(3), exhaustive=True),
+                Job('enum-assign', 'enum', _enum_assign, exhaustive=True),
                 Job('list-sweep', 'enum', sweeps.list_sweep, exhaustive=True)]
     return [Job('histories', 'hyp', lambda: _build(tier), 120000),
             Job('enum-slices', 'enum', lambda: _enum(6, 4), exhaustive=True),
             Job('enum-meta', 'enum', lambda: _enum_meta(5), exhaustive=True),
+            Job('enum-assign', 'enum', _enum_assign, exhaustive=True),
             Job('list-sweep', 'enum', sweeps.list_sweep, exhaustive=True)]
